@@ -1,18 +1,29 @@
-"""Translator for C11 (round four): the straight-line index arithmetic of dune/common/arraylist.hh and the block
-addressing of dune/common/bitsetvector.hh are re-read from the source on every run and emitted as
-lean/DuneVerif/Gen/C11.lean; Props/C11.lean proves (`gen_*_tied`) that every generated definition is the formula the
-hand-written model uses, and re-states the central refinement facts through the generated definitions.  Changing a
-formula, a condition, a loop bound or the order of the statements of one of these functions therefore changes what the
-theorems have to prove.
+"""Translator for C11 (round four, reworked in round five): the member functions of dune/common/arraylist.hh,
+bitsetvector.hh, reservedvector.hh and the operators of iteratorfacades.hh named in tools/checks/c11.py are re-read from
+the source on every run and emitted as lean/DuneVerif/Gen/C11.lean; Props/C11.lean proves (`gen_*_tied`) that every
+generated definition is the formula the hand-written model uses, and re-states the central refinement facts through the
+generated definitions.  Changing a formula, a condition, a loop bound or the order of dependent statements of one of these
+functions therefore changes what the theorems have to prove.
 
-How a function body is read: a small symbolic executor over straight-line code.  Locals are inlined (renaming a local
-is quiet), members are updated in statement order (`x = e`, `x += e`, `x -= e`, `++x`, `--x`, a pre-increment inside an
-expression), the result of a function is the tuple of final member values / the returned expression / the argument of
-the one call the function forwards to, as Lean `Nat` (or `Int`) expressions in the *initial* member values.  `assert`s are
-dropped after checking that their argument is free of side effects.  Anything else (an unknown statement, an unknown
-identifier, a call, a shift, a cast, ...) is outside the grammar: TranslateError, which check.py reports as a broken
-obligation and follows by a search for a failing input.  Commuted operands and re-associated sums change the generated
-text but not the truth of the `gen_*_tied` theorems (they are closed by normalising tactics), so they are quiet.
+Round five: most functions are no longer matched as text shapes but *executed symbolically* (tokenizer, expression and
+statement parser, class Exec below): a function is read as what it does - per path the final member values, the ordered
+effects on the opaque state (`chunks_`: append a chunk / copy a pointer range to the front / resize / clear / reset k
+pointers downwards from index f / write the argument to element i; `storage_`: write the argument to slot i / fill slots),
+the CHECKSIZE conditions, the value returned or `throws` - as Lean `Nat`/`Int`/`Bool` expressions in the *initial* member
+values and the parameters.  Values are computed eagerly in program order, so all of the following spellings give the same
+translation (up to arithmetic that the tie lemmas normalise): renamed / hoisted / `const` locals (also iterator and
+reference locals such as `chunks_.begin()+d` or `static_cast<const T1&>(lhs)`), a compound expression split into sequenced
+statements (`x -= ++p - s`), guard clause vs. `if` block, `if/return` vs. `?:`, `a>b` vs. `b<a`, counting loops whose
+counter the body does not read in any direction (`for(c=0;c<n;c++)`, `c!=n`, `for(r=n;r>0;--r)`, `while(n-- > 0)`,
+`while(n!=0){..;--n;}`), braces, `this->`, `(*p)[k]` vs. `p->operator[](k)`, `std::copy`/`std::copy_n`/`std::move`,
+index loop vs. `std::fill`/`std::fill_n` (ReservedVector::fill), calls of the class's own nullary accessors (`size()`,
+`empty()`, `begin()`, `end()` ... are inlined: the callee's body is executed on the caller's state), reordering of
+independent statements.  Anything the executor does not know (an unknown call or statement kind, a cast of a number, a
+pointer or reference local to a number, a shift, a loop of another shape, two operands with side effects, an effect
+sequence of another shape, ...) is a TranslateError, which check.py reports as a broken obligation and follows by a search
+for a failing input: the translator never guesses.  Still read as text shapes (class Sym, round four): the facade's member
+operators (++ -- += -= + - []), BitSetVector's constructors / resize / size / rejection test, ReservedVector::emplace_back
+and hash_value, chunkSize_.
 """
 import ast
 import os
